@@ -20,7 +20,7 @@ CHECKS["C17"] = dict(
     level_text=("Generated-sequence search against an exact reference model; both directions are checked (every "
                 "model entry is found, nothing else is returned, order identical). Does not establish absence."),
     level_note="trusted: the sorted-slice model and vlib.LessV (independent of types.CompareKeys); tower heights seeded through the verif-only VerifSetRand hook",
-    quick=[dict(pkg="pure", test="TestC17", shards=16, checks=1500, timeout=120)],
+    quick=[dict(pkg="pure", test="TestC17", shards=16, checks=12000, timeout=300)],
     thorough=[dict(pkg="pure", test="TestC17", shards=16, checks=60000, timeout=900)],
 )
 
@@ -41,7 +41,7 @@ CHECKS["C16"] = dict(
     level_text=("Generated-input search with an exact one-directional oracle (no false negative); this is the whole "
                 "property, the false-positive rate is deliberately not judged."),
     level_note="trusted: the procedural key expansion (SHA-256 of seed and counter)",
-    quick=[dict(pkg="pure", test="TestC16", shards=12, checks=250, timeout=150),
+    quick=[dict(pkg="pure", test="TestC16", shards=12, checks=400, timeout=250),
            dict(pkg="lvl", test="TestC16Levels", shards=4, checks=40, timeout=200)],
     thorough=[dict(pkg="pure", test="TestC16", shards=16, checks=12000, timeout=1200),
               dict(pkg="lvl", test="TestC16Levels", shards=16, checks=1500, timeout=1200)],
@@ -68,8 +68,8 @@ CHECKS["C13"] = dict(
     level_text=("Generated-history search against an interval-form reference model (leaves room for other correct "
                 "implementations); the concurrent leg samples real schedules and cannot enumerate them."),
     level_note="trusted: the counter model in watermark_test.go; VerifSync only pushes a waiter mark through the existing FIFO channel",
-    quick=[dict(pkg="pure", test="TestC13", shards=12, checks=1200, timeout=150),
-           dict(pkg="pure", test="TestC13Conc", race=True, shards=4, checks=150, timeout=150)],
+    quick=[dict(pkg="pure", test="TestC13", shards=12, checks=6000, timeout=300),
+           dict(pkg="pure", test="TestC13Conc", race=True, shards=4, checks=500, timeout=300)],
     thorough=[dict(pkg="pure", test="TestC13", shards=16, checks=40000, timeout=1200),
               dict(pkg="pure", test="TestC13Conc", race=True, shards=16, checks=1500, timeout=1200)],
 )
@@ -156,7 +156,7 @@ CHECKS["C09"] = dict(
                 "through checkAndCompact (reachable table selections)."),
     level_note="trusted: vlib.Best over the flushed multiset; watermark steering through the stub oracle's readMark (Done + VerifSync)",
     death_is_violation=True,
-    quick=[dict(pkg="lvl", test="TestC09", shards=16, checks=90, timeout=300, gomaxprocs=1)],
+    quick=[dict(pkg="lvl", test="TestC09", shards=16, checks=260, timeout=400, gomaxprocs=1)],
     thorough=[dict(pkg="lvl", test="TestC09", shards=16, checks=4000, timeout=2400)],
 )
 
@@ -196,10 +196,10 @@ def _e1(prop, title, owns, nontriv, q_checks, t_checks, extra_assume=()):
 
 CHECKS["C01"] = _e1("C01", "Generated-history search against an exact model: every read in a fresh transaction must return the latest committed write, at whatever gate the flusher stands.",
     "reads in a transaction whose snapshot is the latest commit (after every commit a fresh View reads the keys just written, every 8th commit and at the end the whole pool, again after the flusher went idle) must equal the model's latest state.",
-    "the program read a key whose newest version had left the memtable (its memtable was flushed) AND read a deleted key whose tombstone had been flushed.", 45, 1500)
+    "the program read a key whose newest version had left the memtable (its memtable was flushed) AND read a deleted key whose tombstone had been flushed.", 110, 2500)
 CHECKS["C02"] = _e1("C02", "Generated histories with close/reopen cycles: before/after differential plus model agreement for post-reopen writes.",
     "the full-pool read before Close must equal the full-pool read after Open (differential, independent of the model); fresh reads of keys written after a reopen must return the new data (also after later flushes, compactions, reopens); Open/Close must not fail or panic.",
-    "a reopen on a directory that held tables AND a post-reopen overwrite of a pre-reopen key read back after it left the memtable.", 45, 1000)
+    "a reopen on a directory that held tables AND a post-reopen overwrite of a pre-reopen key read back after it left the memtable.", 110, 2500)
 CHECKS["C05"] = _e1("C05", "Generated interleavings with long-lived readers: every Get must equal snapshot-at-Begin overlaid with own writes; the same history is re-decided by porcupine as a split history.",
     "every Get in any live transaction (snapshot fixed at Begin, own buffer on top), re-read after every flusher step; dirty reads; the recorded history's split form (reads at Begin, writes at Commit) must be linearizable.",
     "a transaction read, after its newer version had been flushed and a compaction had happened, a key that another transaction overwrote or deleted after its Begin.", 45, 1500)
@@ -211,7 +211,7 @@ CHECKS["C07"] = _e1("C07", "Exact two-sided oracle for the Commit result in gene
     "a predicted-and-observed conflict AND a commit that succeeds although a concurrent transaction committed other keys.", 160, 4000)
 CHECKS["C08"] = _e1("C08", "Generated abandonment (Discard, conflict, failing Update closure) and misuse, followed by flushes, compactions and restarts; token identity makes leaked writes directly visible.",
     "any read returning a token of a transaction that never committed; misuse calls must return the documented error (any applicable one) and Get not-found; Update must return the closure's own error; View/Update after Close must return ErrDBClosed without running the closure.",
-    "an abandoned write set (discard with writes / failed closure after writes) in a program that flushed and then reopened or compacted.", 45, 1500)
+    "an abandoned write set (discard with writes / failed closure after writes) in a program that flushed and then reopened or compacted.", 110, 2500)
 
 _E2_GEN = ("rapid draws a workload (Config with MemtableByteThreshold 60..400, ImmutableBuffer 0..3, block 1/60/4096, "
            "L0TargetNum 1..2, LevelRatio 1..2 so that flushes and multi-level compactions happen; 6..12 trap-pool keys; 12..45 "
@@ -296,8 +296,8 @@ CHECKS["C15"] = dict(
     assumptions=["Close is called once, with no transaction open and no call in flight"],
     level_text="Deterministically constructed blocking situations (owned flusher) plus sampled free schedules; liveness is decided by a no-runnable-goroutine criterion, not by time.",
     level_note="trusted: the goroutine-dump parser (deadlocked()), the verifhook gate (steers only)",
-    quick=[dict(pkg="conc", test="TestC15", shards=12, checks=40, timeout=600, gomaxprocs=4),
-           dict(pkg="conc", test="TestC15Conc", shards=8, checks=12, timeout=600, gomaxprocs=4)],
+    quick=[dict(pkg="conc", test="TestC15", shards=12, checks=110, timeout=600, gomaxprocs=4),
+           dict(pkg="conc", test="TestC15Conc", shards=8, checks=40, timeout=600, gomaxprocs=4)],
     thorough=[dict(pkg="conc", test="TestC15", shards=16, checks=1500, timeout=3000, gomaxprocs=4),
               dict(pkg="conc", test="TestC15Conc", shards=16, checks=400, timeout=3000, gomaxprocs=4)],
 )
